@@ -136,6 +136,16 @@ def run(ctx):
                 for en in ("parse", "parseb", "parsew"):
                     reqs.append(f"{en} {hx}")
                     ntails += 1
+    # a string that is not terminated inside its instruction (or is missing altogether), followed by instructions whose first byte is 0:
+    # a parse error at that instruction, whatever a reader that runs past the instruction's last word would find
+    for bad in ([3 << 16 | g.opv["Name"], 1, 0x64636261], [3 << 16 | g.opv["Decorate"], 1, 5635], [2 << 16 | g.opv["Extension"], 0x64636261],
+                [4 << 16 | g.opv["Name"], 1, 0x64636261, 0x68676665]):
+        for tail in ([0x00010000 | g.opv["Nop"]], [0x00010000 | g.opv["Nop"], 0x00010000 | g.opv["Nop"]], [0x00030000 | g.opv["MemoryModel"], 0, 1],
+                     [0x00010000 | 0x100], [0x00020000 | g.opv["Capability"], 1]):
+            hx = instgen.to_bytes(instgen.header() + bad + tail).hex()
+            for en in ("parse", "parseb", "parsew"):
+                reqs.append(f"{en} {hx}")
+                ntails += 1
     ctx.coverage["truncated_tails"] = ntails
     impl, model = C.differential(ctx, reqs, "parse-script", oracle=oracle, shrink=False)
     for r, a in zip(reqs, impl):
